@@ -60,6 +60,7 @@ def specs(tier):
     if tier == 'thorough':
         add([('M', .5), ('A1D1', .5)], omen(OMEN_Y, [(1, .25), (2, .0625)]), 'ngram2 three letters')
         add([('A1', .5), ('M', .25), ('D1D1', .25)], omen(OMEN_X, [(1, .5), (2, .25), (3, .125)]), 'three structures')
+        add([('M', .7), ('D1', .3)], omen(OMEN_Y, [(1, .5), (2, .25)]), 'ngram2 three letters, levels of 3 and 8 strings')
     return out
 
 
@@ -68,7 +69,7 @@ def shards(tier):
 
 
 def bounds(tier):
-    return {'rulesets': [s['name'] for s in specs(tier)], 'depth': 3, 'quit_positions': 'every j in 0..len(resumed stream)'}
+    return {'rulesets': [s['name'] for s in specs(tier)], 'depth': 4 if tier == 'thorough' else 3, 'quit_positions': 'every j in 0..len(resumed stream)'}
 
 
 def labelled_language(spec):
@@ -127,7 +128,7 @@ def check_resumed(stdout, remainder, p, lab, pts, what):
     return msgs[:3]
 
 
-def explore(td, spec, acc, maxdepth=3):
+def explore(td, spec, acc, maxdepth=3):  # maxdepth: number of quit/resume cycles explored
     lab, pts = labelled_language(spec)
     fails = []
     S.clear_session(td)
@@ -224,7 +225,7 @@ def run_shard(shard, tier, acc):
     spec = specs(tier)[i]
     td = tree.scratch_tree()
     R.write_ruleset(os.path.join(td, 'Rules', 'v'), spec)
-    fails = explore(td, spec, acc)
+    fails = explore(td, spec, acc, maxdepth=4 if tier == 'thorough' else 3)
     for sig, msg in fails:
         acc.fail({'spec_index': i, 'name': spec['name']}, '[%s] %s' % (spec['name'], msg), sig)
     acc.sample({'ruleset': spec['name'], 'grammar': spec['grammar'], 'omen_prob': spec['omen']['omen_prob']}, cap=1)
